@@ -4881,6 +4881,15 @@ class Symbol:
             # have happened first (a choice that the user has picked has nothing to resolve).
             if self.choice._user_selection is None:
                 self.choice.resolve_defaults()
+            else:
+                # The choice itself has nothing to resolve, but which of its symbols is selected still depends on
+                # their visibility (the user's pick may be hidden): resolve what that depends on.
+                # (The choice's own symbols are among its dependencies; they are covered by resolve_vis() below.)
+                for sc in self.choice.dependencies:
+                    if not sc.is_constant and getattr(sc, "choice", None) is not self.choice:
+                        sc.resolve_defaults()
+                for sym in self.choice.syms:
+                    sym.resolve_vis()
             return
 
         if self._user_value is not None or self._sdkconfig_value is None or self.resolve_vis() == 0:
